@@ -186,6 +186,8 @@ where
     pub fn set_orientation(&mut self, orientation: options::Orientation) -> Result<(), DI::Error> {
         self.madctl = self.madctl.with_orientation(orientation); // set orientation
         self.di.write_command(self.madctl)?;
+        // size, bounding box and address window offsets depend on the current orientation
+        self.options.orientation = orientation;
 
         Ok(())
     }
